@@ -1,4 +1,5 @@
 SPECIFICATION TSpec
 CONSTANTS
+  AssignRule = "strict"
   CfgSpace <- NoSpace
 INVARIANT Emit
